@@ -111,6 +111,9 @@ int get_opcode_offset(struct instr *instrc) {
   unsigned int index = instrc->opd[0].index & MODE_MASK;
   unsigned int base2 = instrc->opd[1].reg & MODE_MASK;
   unsigned int index2 = instrc->opd[1].index & MODE_MASK;
+  // a memory operand without any address register ([disp]) is not a byte operand
+  if (instrc->mem_disp)
+    return 1;
   if (IN_RANGE(base, reg16, ext64) || IN_RANGE(base2, reg16, ext64))
     return 1;
   if (IN_RANGE(index, reg16, ext64) || IN_RANGE(index2, reg16, ext64))
